@@ -132,6 +132,12 @@ func NRegVal(t *tape.Tape) float32 {
 
 // LODVal draws a level-of-detail bound.
 func LODVal(t *tape.Tape, upper bool) float32 {
+	if t.Chance(1, 4) {
+		// exactly on, one below and one above the raster heights the checks
+		// render at: the test is lod0 <= height < lod1
+		h := []int{1, 24, 32, 120, 44, 20}[t.Intn(6)]
+		return float32(h + t.Range(-1, 1))
+	}
 	switch t.Pick(3, 2, 1) {
 	case 0:
 		if upper {
